@@ -353,6 +353,15 @@ def make(it):
     @reg('next')
     def _next(it, args, kw, n):
         v = args[0]
+        if isinstance(v, SymList):
+            idx = getattr(v, 'next_idx', 0)
+            v.next_idx = idx + 1
+            if len(args) > 1:
+                if it.ctx.branch(v.length > idx):
+                    return v.elem(z3.IntVal(idx))
+                return args[1]
+            it.raise_if(v.length <= idx, 'StopIteration', 'next-exhausted', n)
+            return v.elem(z3.IntVal(idx))
         if isinstance(v, GenVal):
             lst = it.run_generator(v)
             idx = getattr(v, 'next_idx', 0)
